@@ -22,7 +22,8 @@ ASSUME13 = [
     "half of the vectors have an unsolicited 650 event (single-line, multi-line or data-block) delivered just before the command is "
     "issued or just before its reply; the expected result does not depend on it",
     "some vectors are issued behind an in-flight command whose caller has cancelled its Deferred: Tor still answers that command "
-    "first, and the answer must not be taken for the vector's",
+    "first, and the answer must not be taken for the vector's; some GETINFO vectors are issued twice in a row behind a busy connection "
+    "(two callers asking the same): both must get the value",
 ]
 CRIT12 = ["a", " ", "\t", '"', "\\", "=", "\r", "\n"]
 CRIT13 = ["a", "=", " ", '"', "'", "2", "5", "0", ".", "O", "K"]
@@ -112,7 +113,7 @@ def run(pid, tier, seed):
         rep.assumptions = list(ASSUME13)
         rep.tlc("KvLine_MC (grammar round trip)", tlc.run_tlc("KvLine_MC", "KvLine_MC_quick.cfg", workers=16, timeout=900))
         recs = []
-        noises = ["none"] * 6 + ["%s@%s" % (sh, at) for sh in ("midline", "block", "single") for at in ("before", "during")] + ["cancel@before"] * 2
+        noises = ["none"] * 6 + ["%s@%s" % (sh, at) for sh in ("midline", "block", "single") for at in ("before", "during")] + ["cancel@before"] * 2 + ["twin@before"] * 2
         for v in vectors13(tier, seed):
             noise = rng.choice(noises)
             if v[0] == "info":
